@@ -51,7 +51,12 @@ def histories(draw, tier="quick"):
     codes = gen.draw_label_codes(draw, n, ngroups, draw(st.sampled_from(["random", "periodic", "blocks"])))
     codes2 = list(draw(st.permutations(codes)))
     runs = sorted(codes)
-    labels = [{"dt": "<i8", "sh": [n], "v": codes}, {"dt": "<i8", "sh": [n], "v": codes2}, {"dt": "<i8", "sh": [n], "v": runs}]
+    # a second sequential label array of the same shape/dtype (and same last label) but other run borders:
+    # a cache keyed on shape instead of content would serve a stale plan
+    cut = draw(st.integers(1, n - 1))
+    runs2 = [0] * cut + [max(runs)] * (n - cut)
+    labels = [{"dt": "<i8", "sh": [n], "v": codes}, {"dt": "<i8", "sh": [n], "v": codes2}, {"dt": "<i8", "sh": [n], "v": runs},
+              {"dt": "<i8", "sh": [n], "v": runs2}]
     present = sorted(set(codes))
     expected = [
         {"labels": present, "as": "array"},
@@ -68,7 +73,7 @@ def histories(draw, tier="quick"):
 @st.composite
 def step(draw, n, narr):
     op = draw(st.sampled_from(["reduce"] * 6 + ["scan", "scan", "rechunk_blockwise", "rechunk_cohorts", "xarray", "xarray", "cohorts_planner"]))
-    s = {"op": op, "arr": draw(st.integers(0, narr - 1)), "by": draw(st.integers(0, 2))}
+    s = {"op": op, "arr": draw(st.integers(0, narr - 1)), "by": draw(st.integers(0, 3))}
     chunked = draw(st.booleans())
     s["chunks"] = gen.draw_chunks(draw, n, max_blocks=6) if (chunked or op.startswith("rechunk") or op == "cohorts_planner") else None
     if op == "reduce":
@@ -297,7 +302,7 @@ def _do_step(pool, s):
         m, c = fc.find_group_cohorts(by, (tuple(s["chunks"]),), merge=s["merge"])
         return (m, {tuple(k): list(v) for k, v in c.items()})
     if op == "rechunk_blockwise":
-        lab = pool["labels"][2]
+        lab = pool["labels"][s["by"] if s["by"] in (2, 3) else 2]
         if s.get("xr"):
             obj = xr.DataArray(darr, dims=["x"], name="v")
             return fx.rechunk_for_blockwise(obj, "x", xr.DataArray(lab, dims=["x"], name="lab"))
